@@ -15,6 +15,8 @@ sweeps with NUMBA_BOUNDSCHECK=1.
 import os
 import warnings
 
+from vf import core
+
 # idle numba/OpenMP pool threads must sleep instead of spinning: the machine is shared with other checks, and a
 # spinning pool makes every multi-threaded call wait for a time slice (scheduling only - no effect on results)
 os.environ.setdefault('OMP_WAIT_POLICY', 'PASSIVE')
@@ -58,7 +60,8 @@ def boxes_for(shape):
 
 
 def tconfigs(n1d):
-    """(nthread, npartition) settings tsc_parallel documents as acceptable, minus the C07 configuration"""
+    """(nthread, npartition) settings to drive.  Whether tsc_parallel accepts a setting is C07's subject: a ValueError
+    refusal of any non-default setting is counted (configurations_refused_by_tsc_parallel), never reported."""
     out = [(1, None), (1, 1), (1, 2)]
     for nth in (2, 4):
         out.append((nth, 1))
@@ -71,10 +74,6 @@ def tconfigs(n1d):
         # accepted since the C07 fix) or refuse it with ValueError; if accepted the deposit must be right
         out.append((2, 2))
     return out
-
-
-def maybe_rejected(c):
-    return c['e'] == 'tp' and c['nth'] > 1 and c['npart'] == 2 and c['shape'][c['coord']] in (2, 3)
 
 
 def bounds(tier):
@@ -418,7 +417,7 @@ class Ctx:
         i, j, k = np.meshgrid(*[np.arange(g) for g in self.shape], indexing='ij')
         self.base = (0.25 * ((3 * i + 5 * j + 7 * k) % 7)).astype(np.float64) if c['acc'] else np.zeros(self.shape)
         self.problems = {}
-        self.extra = dict(deposits=0, cells_compared=0, cells_exact=0, cells_outside_support_required_untouched=0, calls=0)
+        self.extra = dict(deposits=0, cells=0, cells_exact=0, cells_untouched=0, calls=0)
         self.worst = 0.0
         self.nt = set()
         self.cfgkey = '|'.join(str(c[k]) for k in ('e', 'shape', 'pdt', 'gdt', 'box', 'offk', 'wk', 'nth', 'npart', 'coord', 'sort', 'wrap', 'acc', 'darg', 'lay'))
@@ -492,14 +491,26 @@ class Ctx:
                 r = _M['tsc'].tsc_parallel(p, grid, self.box, weights=w, nthread=c['nth'], wrap=self.wrap, npartition=c['npart'],
                                            sort=c['sort'], coord=c['coord'], offset=self.offset)
             except ValueError as ex:
-                if maybe_rejected(c) and 'npartition' in str(ex):
+                # which (n1d, nthread, npartition) settings are safe to accept is C07's subject: a refusal of any
+                # non-default setting is counted, never a C06 violation (the plain serial default must work)
+                if c['nth'] > 1 or c['npart'] is not None:
                     raise Rejected(str(ex))
                 raise
             if isinstance(grid, np.ndarray) and r is not grid:
                 self.prob('return', 'tsc_parallel did not return the supplied grid')
             return r
         if e == 'ts':
-            _M['tsc']._tsc_scatter(p, grid, self.box, w, self.offset)
+            # private kernel reached by name and positional signature: if either is gone the DRIVER is stale, not the property
+            fn = getattr(_M['tsc'], '_tsc_scatter', None)
+            if fn is None:
+                raise core.Stale('abacusnbody.analysis.tsc has no _tsc_scatter any more (private kernel renamed/removed)')
+            try:
+                fn(p, grid, self.box, w, self.offset)
+            except TypeError as ex:
+                why = core.stale_reason(ex)
+                if why:
+                    raise core.Stale(why)
+                raise
             return grid
         if e == 'cic':
             _M['cic'].cic_serial(p, grid, self.box, w)
@@ -539,20 +550,28 @@ class Ctx:
         return raw.astype(np.float64) - self.base, raw
 
     def check_pos(self, pos, P):
-        """the input may only change by the documented in-place periodic wrap"""
+        """what tsc_parallel(wrap=True) may do to the caller's positions: leave them alone (wrap done on a copy - only
+        counted: the property is about the grid) or replace a coordinate by ANY value congruent to it modulo Box that lies
+        in [0, Box] (one subtraction, x % box, ... - all the same particle).  Anything else written into the caller's
+        array is a broken periodic wrap.  The other entry points must not touch their input."""
         if self.e == 'tp' and self.wrap:
             p = pos.astype(np.longdouble)
             box = np.longdouble(self.box)
-            exp = np.where(p >= box, p - box, np.where(p < 0, p + box, p))
-            ulp = np.spacing(np.abs(P)).astype(np.longdouble)
-            bad = ~(np.abs(P.astype(np.longdouble) - exp) <= ulp)
-            bad |= ~((P >= 0) & (P.astype(np.float64) <= self.box))
-            same = (p >= 0) & (p < box)
-            bad |= same & (P != pos)
-            if bad.any():
-                i = int(np.nonzero(bad.any(axis=1))[0][0])
-                self.prob('wrap-inplace', f'position {pos[i].tolist()} became {P[i].tolist()} (box {self.box})')
-            self.extra['wrapped_coordinates'] = self.extra.get('wrapped_coordinates', 0) + int((~same).sum())
+            inside = (p >= 0) & (p < box)
+            self.extra['wrapped'] = self.extra.get('wrapped', 0) + int((~inside).sum())
+            changed = ~((P == pos) | (np.isnan(P) & np.isnan(pos)))
+            left = (~inside) & ~changed & ~((p >= 0) & (p <= box))
+            if left.any():
+                self.extra['left_unwrapped'] = self.extra.get('left_unwrapped', 0) + int(left.sum())
+            if changed.any():
+                Pl = P.astype(np.longdouble)
+                d = Pl - p
+                k = np.rint(d / box)
+                ulp = 2 * np.spacing(np.maximum(np.abs(P), self.ft(min(self.box, float(np.finfo(self.ft).max)))).astype(self.ft)).astype(np.longdouble)
+                bad = changed & ~((np.abs(d - k * box) <= ulp) & (Pl >= 0) & (Pl <= box))
+                if bad.any():
+                    i = int(np.nonzero(bad.any(axis=1))[0][0])
+                    self.prob('wrap-inplace', f'position {pos[i].tolist()} was overwritten with {P[i].tolist()}, which is not the same point modulo the box {self.box} brought into [0, box]')
         else:
             if not np.array_equal(P, pos):
                 i = int(np.nonzero((P != pos).any(axis=1))[0][0])
@@ -591,9 +610,9 @@ class Ctx:
                 tol = tol + (tol > 0) * self.acc_tol(hi)
             d = np.abs(o - ref_)
             bad = ~(d <= tol)
-            self.extra['cells_compared'] += int(d.size)
+            self.extra['cells'] += int(d.size)
             self.extra['cells_exact'] += int(((tol == 0) & (hi > 0)).sum())
-            self.extra['cells_outside_support_required_untouched'] += int((hi == 0).sum())
+            self.extra['cells_untouched'] += int((hi == 0).sum())
             with np.errstate(divide='ignore', invalid='ignore'):
                 q = np.where(tol > 0, d / tol, 0.0)
             self.worst = max(self.worst, float(q[~bad].max()) if (~bad).any() else 0.0)
@@ -655,11 +674,11 @@ class Ctx:
         if wtot is None:
             return dens * (n / self.ncell)
         if abs(s - self.ncell * wtot / n) <= 1e-4 * self.ncell * max(1.0, abs(wtot) / n):
-            k = 'getfield_weighted_normalised_by_count'
+            k = 'gf_norm_by_count'
         elif abs(s - self.ncell) <= 1e-4 * self.ncell:
-            k = 'getfield_weighted_normalised_by_weight'
+            k = 'gf_norm_by_weight'
         else:
-            k = 'getfield_weighted_normalised_otherwise'
+            k = 'gf_norm_other'
         self.extra[k] = self.extra.get(k, 0) + 1
         if s == 0 or wtot == 0:
             return dens * (n / self.ncell)
@@ -722,8 +741,8 @@ def run_roll(cx):
                 if c['acc']:
                     tol = tol + 2 * cx.acc_tol(1.0)
                 bad = ~(np.abs(rolled - B[sl]) <= tol)
-                cx.extra['roll_checks'] = cx.extra.get('roll_checks', 0) + len(rolled)
-                cx.extra['roll_checks_exact'] = cx.extra.get('roll_checks_exact', 0) + int((tol.reshape(len(rolled), -1).max(axis=1) == 0).sum())
+                cx.extra['rolls'] = cx.extra.get('rolls', 0) + len(rolled)
+                cx.extra['rolls_exact'] = cx.extra.get('rolls_exact', 0) + int((tol.reshape(len(rolled), -1).max(axis=1) == 0).sum())
                 if bad.any():
                     i = int(np.nonzero(bad.reshape(len(rolled), -1).any(axis=1))[0][0])
                     cx.prob('roll', f'G(p + {k} cells along axis {a}) != roll(G(p), {k}): p={p0[t + i].tolist()} shifted={p1[t + i].tolist()}: '
@@ -787,8 +806,7 @@ def run_layout(cx):
         if not (np.signbit(outside) & (outside == 0)).all():
             cx.prob(f'layout-{lay}:surroundings', f'elements of the larger buffer outside the supplied {lay} view were written '
                                                   f'(particle {pos[i].tolist()}): {outside[~(np.signbit(outside) & (outside == 0))][:4].tolist()}')
-    cx.extra['layout_deposits'] = cx.extra.get('layout_deposits', 0) + n
-    cx.extra['layout_accumulations'] = cx.extra.get('layout_accumulations', 0) + n
+    cx.extra['layout'] = cx.extra.get('layout', 0) + n
     ref, tol, hi = rf.cells()
     t1 = tol + (tol > 0) * cx.acc_tol(hi)
     bad = ~(np.abs(out1 - ref) <= t1)
@@ -806,7 +824,7 @@ def run_layout(cx):
         i = int(np.nonzero(bad.reshape(n, -1).any(axis=1))[0][0])
         cx.prob(f'layout-{lay}:vs-contiguous', f'deposit into the {lay} grid differs from the deposit into a fresh C-contiguous grid: '
                 + cx.fmt(pos[i], None if w is None else w[i], out1[i], C[i], t3[i]))
-    cx.extra['cells_compared'] += 3 * int(ref.size)
+    cx.extra['cells'] += 3 * int(ref.size)
     near = rf.nearest()[rf.W != 0]
     for t in set(map(tuple, near.tolist())):
         cx.nt.add(cx.cfgkey + '|%d,%d,%d' % t)
@@ -865,7 +883,7 @@ def run_pair(cx):
             mag = hiA[i][None] + hiB
             tol = 32 * eps_g * mag + floor * (mag > 0)
             bad = ~(np.abs(G12 - S) <= tol)
-            cx.extra['pair_checks'] = cx.extra.get('pair_checks', 0) + m
+            cx.extra['pairs'] = cx.extra.get('pairs', 0) + m
             if bad.any():
                 j = int(np.nonzero(bad.reshape(m, -1).any(axis=1))[0][0])
                 cx.prob('additivity', f'G({{p1,p2}}) != G(p1)+G(p2): p1={Q[i].tolist()} p2={Q[j].tolist()} weights={wp}: '
@@ -924,9 +942,9 @@ def run_multi(cx):
     ref, tol, hi = rf.total()
     tol = tol + extra_tol * (1 + hi) + cx.acc_tol(hi)
     bad = ~(np.abs(out - ref) <= tol)
-    cx.extra['multi_checks'] = cx.extra.get('multi_checks', 0) + 1
-    cx.extra['multi_particles'] = cx.extra.get('multi_particles', 0) + n
-    cx.extra['cells_compared'] += cx.ncell
+    cx.extra['multi'] = cx.extra.get('multi', 0) + 1
+    cx.extra['multi_n'] = cx.extra.get('multi_n', 0) + n
+    cx.extra['cells'] += cx.ncell
     if bad.any():
         ix = tuple(int(x) for x in np.argwhere(bad)[0])
         cx.prob('multi', f'{n}-particle deposit differs from the kernel sum in {int(bad.sum())} cells, e.g. cell {ix}: got {out[ix]!r} expected {ref[ix]!r} (tol {tol[ix]:.3g})')
@@ -942,7 +960,12 @@ def run(case):
         out = dict(problems=[], evals=0, nt=set(), extra={}, max={}, sample=None)
         seen = set()
         for sub in case['sub']:
-            r = run_one(sub)
+            try:
+                r = run_one(sub)
+            except core.Stale as ex:
+                out['extra']['sub_stale'] = out['extra'].get('sub_stale', 0) + 1
+                stale = str(ex)
+                continue
             for p in r['problems']:
                 if p['sig'] not in seen:
                     seen.add(p['sig'])
@@ -955,6 +978,8 @@ def run(case):
                 out['max'][k] = max(out['max'].get(k, v), v)
             out['sample'] = out['sample'] or r['sample']
         out['nt'] = sorted(out['nt'])
+        if not out['evals'] and out['extra'].get('sub_stale'):
+            raise core.Stale(stale)
         return out
     return run_one(case)
 
@@ -978,7 +1003,7 @@ def run_one(case):
         else:
             raise AssertionError(mode)
     except Rejected:
-        cx.extra['configurations_refused_by_tsc_parallel'] = 1
+        cx.extra['refused'] = 1
         cx.nt.clear()
     except (IndexError, SystemError) as ex:
         if not cx.bchk:
@@ -987,10 +1012,11 @@ def run_one(case):
         cx.prob('oob-boundscheck', f'{mode}: {type(ex).__name__}: {ex}')
     keep = (mode == 'single' and c['sweep'].startswith('axis0') and c['shape'] in ([3, 4, 5], [8, 8, 8]) and c['offk'] == 1) or \
            (mode == 'multi' and c['nth'] == 2 and c['npart'] == 2 and c['shape'] == [8, 2, 3])
-    r = dict(problems=list(cx.problems.values()), evals=cx.extra['calls'], nt=sorted(cx.nt), extra=cx.extra,
-             max=dict(worst_error_permille_of_tolerance=int(cx.worst * 1000)), sample=sample if keep and not cx.bchk else None)
+    calls = cx.extra.pop('calls')
+    r = dict(problems=list(cx.problems.values()), evals=calls, nt=sorted(cx.nt), extra=cx.extra,
+             max=dict(worst_permille_of_tol=int(cx.worst * 1000)), sample=sample if keep and not cx.bchk else None)
     if cx.bchk:
-        r['extra'] = dict(cx.extra, boundscheck_calls=cx.extra['calls'])
+        r['extra'] = dict(cx.extra, bchk_calls=calls)
     return r
 
 
